@@ -98,6 +98,7 @@ func (c *Ctx) renderKind(v ssa.Value, depth int) string {
 			// a library function that returns one rendering kind on every return
 			if callee.Blocks != nil && callee.Pkg != nil && strings.HasPrefix(callee.Pkg.Pkg.Path(), c.ModPath) {
 				kind := ""
+				mixed := false
 				for _, b := range callee.Blocks {
 					for _, ins := range b.Instrs {
 						if ret, ok := ins.(*ssa.Return); ok && len(ret.Results) == 1 {
@@ -105,10 +106,13 @@ func (c *Ctx) renderKind(v ssa.Value, depth int) string {
 							if kind == "" {
 								kind = k
 							} else if kind != k {
-								return ""
+								mixed = true
 							}
 						}
 					}
+				}
+				if mixed {
+					return c.selectedKind(x, callee, depth)
 				}
 				return kind
 			}
@@ -164,6 +168,53 @@ func (c *Ctx) renderKind(v ssa.Value, depth int) string {
 		return ""
 	}
 	return ""
+}
+
+// selectedKind: a helper `if flag { return a } return b` whose flag is one of its parameters renders
+// sel(<caller's argument>;kind(a);kind(b)), the same type a caller-side if/else on that argument has.
+func (c *Ctx) selectedKind(call *ssa.Call, callee *ssa.Function, depth int) string {
+	entry := callee.Blocks[0]
+	iff, ok := entry.Instrs[len(entry.Instrs)-1].(*ssa.If)
+	if !ok {
+		return ""
+	}
+	prm, ok := iff.Cond.(*ssa.Parameter)
+	if !ok {
+		return ""
+	}
+	idx := -1
+	for i, q := range callee.Params {
+		if q == prm {
+			idx = i
+		}
+	}
+	if idx < 0 || idx >= len(call.Common().Args) {
+		return ""
+	}
+	arm := func(b *ssa.BasicBlock) string {
+		kind := ""
+		n := 0
+		for _, blk := range callee.Blocks {
+			if !b.Dominates(blk) {
+				continue
+			}
+			for _, ins := range blk.Instrs {
+				if ret, ok := ins.(*ssa.Return); ok && len(ret.Results) == 1 {
+					n++
+					kind = c.renderKind(ret.Results[0], depth+1)
+				}
+			}
+		}
+		if n != 1 {
+			return ""
+		}
+		return kind
+	}
+	a, b := arm(entry.Succs[0]), arm(entry.Succs[1])
+	if a == "" || b == "" {
+		return ""
+	}
+	return "sel(" + call.Common().Args[idx].Name() + ";" + a + ";" + b + ")"
 }
 
 func (c *Ctx) paramKind(p *ssa.Parameter, depth int) string {
